@@ -72,7 +72,7 @@ CHECKS = {
         text="The C07 space through reproc_start(options.stop) + reproc_destroy (no result: judged from the child ledger, signals and virtual return "
              "time), the default policy (returns only with the child reaped, SIGTERM not before the deadline and never without one), destroy on "
              "NULL / never started / failed start / rejected options (no kill, poll, waitpid or close; ledgers clean), the forked side (h_start), the reproc++ destructor (h_c15_cxx: the signals sent are exactly those the policy given at start means for the child), and a "
-             "handle whose first start failed with a deadline before the real start without one, the deadline given as REPROC_INFINITE, a clock that jumps 7 ms at one of the library's clock reads (order, completeness and liveness only), and a handle whose child has exited but whose reap was "
+             "handle whose first start failed with a deadline before the real start without one, the deadline given as REPROC_INFINITE, a clock that jumps 7 ms at one of the library's clock reads (order, completeness and liveness only), a deadline that reproc_poll has already reported, and a handle whose child has exited but whose reap was "
              "interrupted (an earlier wait returned EINTR)."),
     "C08": dict(
         cat="model_checking", design="3/C08",
@@ -89,7 +89,7 @@ CHECKS = {
         cat="model_checking", design="3/C09",
         technique="stateless model checking of the real library: exhaustive enumeration of stream/child states x interest masks x schedules, with kernel truth probes after every poll",
         text="1 and 3 sources (one of them process-less) x all 16 interest masks x stdout {idle, data pending, closed by child, closed by parent, EOF "
-             "already reported, not a pipe} x stdin {idle, closed by child, closed by parent, pipe exactly full, full and then closed by the child, closed by the library after start-up input} x stdout also {idle after a read interrupted by a signal} x stderr {pipe, parent} x child {running, zombie, reaped} x "
+             "already reported, not a pipe} x stdin {idle, closed by child, closed by parent, pipe exactly full, full and then closed by the child, closed by the library after start-up input} x stdout also {idle after a read interrupted by a signal} x stderr {pipe, parent} x child {running, zombie, reaped, zombie whose reap was interrupted} x "
              "timeout {0, 2} x an expired deadline on the last source, with one remaining child step released at any scheduling/blocked point. After "
              "each return the harness polls the parent's own descriptors (matched to the child's by pipe inode): events == requested and ready, count == "
              "sources with events, EPIPE iff nothing requested is pollable, and every reported event is consumed (read / 1-byte write / wait(0)) without "
@@ -104,7 +104,7 @@ CHECKS = {
              "for small payloads) and at every blocked read/write/poll. Position-dependent payload: every returned byte is compared with what the child "
              "wrote at that offset (kernel write order for the merged stream); EPIPE only once the child has closed every descriptor on the stream and all "
              "bytes were returned, then sticky without a system call; stdin bytes and EOF arrive; a blocked read after the child closed the stream is a violation; "
-             "after a write was refused because the reader is gone, no later write is accepted or lands in a descriptor the caller opened since; the child's own pipe ends are blocking (writes after the reader has gone also with stdout to the parent / a caller's handle)."),
+             "after a write was refused because the reader is gone, no later write is accepted or lands in a descriptor the caller opened since; the child's own pipe ends are blocking (writes after the reader has gone also with stdout to the parent / a caller's handle; the stdin scripts also with two or three standard descriptors of the parent closed)."),
     "C16": dict(
         cat="model_checking", design="3/C16",
         technique="stateless model checking of the real library: exhaustive interleavings x sink failure position x allocation-failure position x deadline expiry point, protocol oracle over the recorded sink calls",
@@ -139,7 +139,7 @@ CHECKS = {
              "open+close-on-exec (243), plus an O_PATH directory handle, x redirects {default, pipes, discard, user handles, user FILEs without close-on-exec}, plus the whole C10 space: "
              "the started program sees 0, 1, 2 and exactly one more descriptor, the write end of a pipe whose read end the parent holds and that is none "
              "of the streams; the caller's own descriptors are still open afterwards; two starts with the limit raised in between, the second also in fork mode "
-             "while the first child runs, also with stderr taken from standard descriptor 1 (the forked side lists its descriptors); the descriptor limit unreadable or infinite in the forked child with the caller's descriptors above 1024. Concurrent starts from threads are decided by the C20 harness."),
+             "while the first child runs, also with stderr taken from standard descriptor 1 (the forked side lists its descriptors); the descriptor limit unreadable or infinite (and close_range answering ENOSYS, should the library use it) in the forked child with the caller's descriptors above 1024. Concurrent starts from threads are decided by the C20 harness."),
     "C13": dict(
         cat="model_checking", design="3/C13 + Appendix A",
         technique="exhaustive enumeration of the option space against the real validation code with an independent reference of the documented rules; resource-creating libc calls are intercepted, counted and refused, valid combinations are spawned for real",
@@ -203,7 +203,7 @@ CHECKS = {
              "shows no descriptor of the other thread's pipes, and right after a thread's close(IN) its own child sees EOF with nobody else moving - all "
              "schedules with <=1 preemption (thorough <=2), emulated and real exec. (A) writer thread (3 + cap+1 bytes, close) and reader thread on one "
              "echo child, <=2 (3) preemptions: reader gets exactly the writer's bytes. (C) reproc_strerror from two threads with a switch between call "
-             "and use. (H) a writer and a waiter on one child. (I) two threads starting children whose stderr is merged into stdout. (G) two threads running short life cycles with one close() of the library interrupted. (E) one thread whose starts fail after the fork beside another thread's whole life cycle: every waitpid/kill names the caller's own child. (D) two threads each draining its own echo child with reproc_drain, the sink yielding before it looks at its chunk: only its own bytes. "
+             "and use. (H) a writer and a waiter on one child. (I) two threads starting children whose stderr is merged into stdout, or one of them with start-up input. (G) two threads running short life cycles with one close() of the library interrupted. (E) one thread whose starts fail after the fork beside another thread's whole life cycle: every waitpid/kill names the caller's own child. (D) two threads each draining its own echo child with reproc_drain, the sink yielding before it looks at its chunk: only its own bytes. "
              "Data races below call granularity are looked for by a free-running TSan build (60 / 400 runs of three concurrent life cycles, two concurrent drains of 64 KiB and a "
              "reader/writer pair on real cat/sh children): a monitor, not an enumeration."),
 }
